@@ -50,13 +50,18 @@ func isAllowedPossibleValue(opt *Option, value interface{}) error {
 		compareAgainst := val.Value
 		valueType := reflect.TypeOf(value)
 
-		// loading int's from the configuration JSON does not preserve the correct type
-		// as we get float64 instead. Make sure to convert them before.
-		if reflect.TypeOf(val.Value).ConvertibleTo(valueType) {
-			compareAgainst = reflect.ValueOf(val.Value).Convert(valueType).Interface()
-		}
-		if compareAgainst == value {
-			return nil
+		// Only comparable types may be compared with ==: comparing two values
+		// of the same slice or map type (e.g. a []byte given for a string
+		// option) panics.
+		if valueType.Comparable() {
+			// loading int's from the configuration JSON does not preserve the correct type
+			// as we get float64 instead. Make sure to convert them before.
+			if reflect.TypeOf(val.Value).ConvertibleTo(valueType) {
+				compareAgainst = reflect.ValueOf(val.Value).Convert(valueType).Interface()
+			}
+			if compareAgainst == value {
+				return nil
+			}
 		}
 
 		if reflect.DeepEqual(val.Value, value) {
